@@ -425,4 +425,25 @@ theorem writerIndirectCmp_eq_lexCmp (added : List Bytes) (a b : Bytes)
   exact rankOf_mono _ (finalize_strict true added) a b
     ((mem_finalize true added a).2 ha) ((mem_finalize true added b).2 hb)
 
+/-- **Stored order**: whatever order the (parallel, unstable) sort passes leave, an order accepted
+    by the code's own post-check `windows(2).all(compare <= )` with the writer's comparator on a
+    single array key is non-decreasing in the reader's order. -/
+theorem stored_order (indexed : Bool) (added : List Bytes) (fixed : Nat) (out : List Bytes)
+    (hmem : ∀ a ∈ out, a.drop fixed ∈ added)
+    (hchk : sortedCheck (writerArrCmp (VStore.finalize indexed added) fixed) out = true) :
+    sortedCheck lexCmp out = true := by
+  induction out with
+  | nil => rfl
+  | cons x rest ih =>
+    cases rest with
+    | nil => rfl
+    | cons y rest' =>
+      simp only [sortedCheck, Bool.and_eq_true] at hchk ⊢
+      obtain ⟨h1, h2⟩ := hchk
+      refine ⟨?_, ih (fun a ha => hmem a (List.mem_cons_of_mem _ ha)) h2⟩
+      rw [← writerArrCmp_eq_lexCmp indexed added fixed x y (hmem x List.mem_cons_self)
+        (hmem y (List.mem_cons_of_mem _ List.mem_cons_self))]
+      exact h1
+
+
 end Jubako
